@@ -5,6 +5,12 @@ import CogentModel.Proofs.Splitlines
 namespace CogentModel.SeqFormats
 open CogentModel.Splitlines CogentModel.SeqSpec
 
+instance exceptDecEq {ε α : Type} [DecidableEq ε] [DecidableEq α] : DecidableEq (Except ε α)
+  | .ok a, .ok b => if h : a = b then isTrue (by rw [h]) else isFalse (by intro e; cases e; exact h rfl)
+  | .error a, .error b => if h : a = b then isTrue (by rw [h]) else isFalse (by intro e; cases e; exact h rfl)
+  | .ok _, .error _ => isFalse (by intro e; cases e)
+  | .error _, .ok _ => isFalse (by intro e; cases e)
+
 /-! ### character facts -/
 
 theorem eq_iff_toNat (c d : Char) : c = d ↔ c.toNat = d.toNat := Char.toNat_inj.symm
@@ -220,6 +226,9 @@ theorem fasterGo_seqLines {lc : List Char} (label : Option Str) : ∀ (ws : List
 def WfRecs (lc : List Char) (recs : List (Str × List Str)) : Prop :=
   ∀ r ∈ recs, wfName r.1 = true ∧ wfLines lc r.2 = true
 
+instance (lc : List Char) (recs : List (Str × List Str)) : Decidable (WfRecs lc recs) := by
+  unfold WfRecs; infer_instance
+
 theorem wfLines_iff {lc : List Char} {ws : List Str} (h : wfLines lc ws = true) :
     ws ≠ [] ∧ ∀ w ∈ ws, wfSeq lc w = true := by
   simp only [wfLines, Bool.and_eq_true, Bool.not_eq_true', List.all_eq_true] at h
@@ -310,5 +319,253 @@ theorem fasterParser_recs {lc : List Char} {l0 : Char} (hl0 : lc.contains l0 = t
     simp only [List.nil_append]
     rw [ih]
     simp [expected]
+
+/-! ### the code's own block wrapping -/
+
+theorem chunkGo_spec {bs : Nat} (hbs : 0 < bs) : ∀ (fuel : Nat) (s : Str), s.length ≤ fuel →
+    (chunkGo bs fuel s).flatten = s ∧ (∀ w ∈ chunkGo bs fuel s, w ≠ [] ∧ w.length ≤ bs ∧ ∀ c ∈ w, c ∈ s) ∧
+    (s ≠ [] → chunkGo bs fuel s ≠ [])
+  | 0, s, h => by
+    have : s = [] := List.length_eq_zero_iff.mp (by omega)
+    subst this; simp [chunkGo]
+  | fuel + 1, s, h => by
+    by_cases hs : s = []
+    · subst hs; simp [chunkGo]
+    · have hse : s.isEmpty = false := by cases s <;> simp at hs ⊢
+      have hb0 : ¬ (bs = 0) := by omega
+      have hlen : 0 < s.length := List.length_pos_iff.mpr hs
+      have hd : (s.drop bs).length ≤ fuel := by rw [List.length_drop]; omega
+      obtain ⟨h1, h2, _⟩ := chunkGo_spec hbs fuel (s.drop bs) hd
+      simp only [chunkGo, hse, hb0, Bool.false_or, decide_false, Bool.false_eq_true, if_false]
+      refine ⟨by simp [h1], ?_, by simp⟩
+      intro w hw
+      rcases List.mem_cons.mp hw with e | e
+      · subst e
+        refine ⟨?_, by rw [List.length_take]; omega, fun c hc => List.mem_of_mem_take hc⟩
+        intro e2
+        have : (s.take bs).length = 0 := by rw [e2]; rfl
+        rw [List.length_take] at this; omega
+      · obtain ⟨a, b, c⟩ := h2 w e
+        exact ⟨a, b, fun x hx => List.mem_of_mem_drop (c x hx)⟩
+
+theorem chunkWrap_flatten {bs : Nat} (hbs : 0 < bs) (s : Str) : (chunkWrap bs s).flatten = s :=
+  (chunkGo_spec hbs s.length s (Nat.le_refl _)).1
+
+theorem chunkWrap_wfLines {lc : List Char} {bs : Nat} (hbs : 0 < bs) {s : Str} (h : wfSeq lc s = true) :
+    wfLines lc (chunkWrap bs s) = true := by
+  obtain ⟨hne, hc⟩ := wfSeq_chars h
+  obtain ⟨_, h2, h3⟩ := chunkGo_spec hbs s.length s (Nat.le_refl _)
+  have hne' : chunkWrap bs s ≠ [] := h3 hne
+  simp only [wfLines, wfSeq, Bool.and_eq_true, Bool.not_eq_true', List.all_eq_true]
+  refine ⟨by cases hcw : chunkWrap bs s <;> simp_all, ?_⟩
+  intro w hw
+  obtain ⟨a, _, c⟩ := h2 w hw
+  exact ⟨by cases w <;> simp at a ⊢, fun x hx => hc x (c x hx)⟩
+
+theorem joinNl_unlines : ∀ (ls : List Str), ls ≠ [] → joinNl ls ++ ['\n'] = unlines ls
+  | [], h => absurd rfl h
+  | [l], _ => by simp [joinNl, unlines]
+  | l :: l2 :: ls, _ => by
+    have ih := joinNl_unlines (l2 :: ls) (by simp)
+    simp only [joinNl, unlines, List.flatMap_cons] at ih ⊢
+    simp only [List.append_assoc, List.cons_append]
+    rw [ih]; simp
+
+theorem unlines_append (a b : List Str) : unlines (a ++ b) = unlines a ++ unlines b := by
+  simp [unlines]
+
+theorem unlines_cons (l : Str) (ls : List Str) : unlines (l :: ls) = l ++ '\n' :: unlines ls := by
+  simp [unlines]
+
+/-- the text written for wrapped records with label character `l0` -/
+theorem unlines_recLines (l0 : Char) : ∀ (recs : List (Str × List Str)),
+    unlines (recLines l0 recs) = recs.flatMap (fun r => l0 :: r.1 ++ '\n' :: unlines r.2)
+  | [] => by simp [recLines, unlines]
+  | r :: recs => by
+    have ih := unlines_recLines l0 recs
+    simp only [recLines] at ih
+    simp only [recLines, List.flatMap_cons, unlines_append, unlines_cons, ih]
+
+theorem fastaFormat_eq (recs : List (Str × List Str)) : fastaFormat recs = unlines (recLines '>' recs) := by
+  have e : fastaLines recs = recLines '>' recs := rfl
+  unfold fastaFormat
+  simp only [e]
+  by_cases h : recLines '>' recs = []
+  · simp [h, joinNl, unlines]
+  · have : (recLines '>' recs).isEmpty = false := by cases hh : recLines '>' recs <;> simp_all
+    simp only [this, Bool.false_eq_true, if_false]
+    exact joinNl_snoc_nil _ h
+
+theorem recLines_noBreak {lc : List Char} {l0 : Char} (hl0 : printable l0 = true)
+    {recs : List (Str × List Str)} (hwf : WfRecs lc recs) : NoBreak (recLines l0 recs) := by
+  intro l hl c hc
+  simp only [recLines, List.mem_flatMap, List.mem_cons] at hl
+  obtain ⟨r, hr, hl | hl⟩ := hl
+  · subst hl
+    have hn := (hwf r hr).1
+    simp only [wfName, Bool.and_eq_true, List.all_eq_true] at hn
+    rcases List.mem_cons.mp hc with e | e
+    · subst e; exact printable_not_break hl0
+    · exact printable_not_break (hn.1.1.2 c e)
+  · obtain ⟨_, hws⟩ := wfLines_iff (hwf r hr).2
+    exact printable_not_break (seqChar_printable ((wfSeq_chars (hws l hl)).2 c hc))
+
+/-! ### the bytes based FASTA parser -/
+
+theorem splitOnC_ne_nil (d : Char) : ∀ (s : Str), splitOnC d s ≠ []
+  | [] => by simp [splitOnC]
+  | c :: cs => by
+    simp only [splitOnC]
+    split
+    · simp
+    · exact consHead_ne_nil _ _
+
+theorem splitOnC_none {d : Char} : ∀ {a : Str}, d ∉ a → splitOnC d a = [a]
+  | [], _ => rfl
+  | c :: cs, h => by
+    have hc : ¬ (c = d) := fun e => h (by subst e; exact List.mem_cons_self)
+    have := splitOnC_none (a := cs) (fun hm => h (List.mem_cons_of_mem _ hm))
+    simp [splitOnC, hc, this, consHead]
+
+theorem splitOnC_sep {d : Char} : ∀ {a : Str} (b : Str), d ∉ a → splitOnC d (a ++ d :: b) = a :: splitOnC d b
+  | [], b, _ => by simp [splitOnC]
+  | c :: cs, b, h => by
+    have hc : ¬ (c = d) := fun e => h (by subst e; exact List.mem_cons_self)
+    have := splitOnC_sep (a := cs) b (fun hm => h (List.mem_cons_of_mem _ hm))
+    simp [splitOnC, hc, this, consHead]
+
+/-- the part of a record's text after its `>` -/
+def recBody (r : Str × List Str) : Str := r.1 ++ '\n' :: unlines r.2
+
+theorem splitOnC_bodies (d : Char) : ∀ (recs : List (Str × List Str)) (r : Str × List Str),
+    (∀ x ∈ r :: recs, d ∉ recBody x) →
+    splitOnC d (recBody r ++ recs.flatMap (fun x => d :: recBody x)) = recBody r :: recs.map recBody
+  | [], r, h => by simpa using splitOnC_none (h r List.mem_cons_self)
+  | r' :: recs, r, h => by
+    have ih := splitOnC_bodies d recs r' (fun x hx => h x (List.mem_cons_of_mem _ hx))
+    simp only [List.flatMap_cons, List.cons_append, List.map_cons]
+    rw [splitOnC_sep _ (h r List.mem_cons_self), ih]
+
+theorem takeWhile_nl {n : Str} (h : '\n' ∉ n) (x : Str) :
+    (n ++ '\n' :: x).takeWhile (· ≠ '\n') = n ∧ (n ++ '\n' :: x).dropWhile (· ≠ '\n') = '\n' :: x := by
+  induction n with
+  | nil => simp
+  | cons c cs ih =>
+    have hc : c ≠ '\n' := fun e => h (by subst e; exact List.mem_cons_self)
+    have := ih (fun hm => h (List.mem_cons_of_mem _ hm))
+    simpa [hc] using this
+
+theorem upper_id : ∀ {s : Str}, noLower s = true → upper s = s
+  | [], _ => rfl
+  | c :: cs, h => by
+    simp only [noLower, List.all_cons, Bool.and_eq_true, Bool.not_eq_true', Bool.and_eq_false_iff,
+      decide_eq_false_iff_not] at h
+    have ih := upper_id (s := cs) (by simpa [noLower] using h.2)
+    have hc : upperChar c = c := by
+      unfold upperChar
+      split
+      · omega
+      · rfl
+    simp only [upper, List.map_cons, hc] at ih ⊢
+    rw [ih]
+
+theorem printable_not_convDel {c : Char} (h : printable c = true) (hs : c ≠ ' ') :
+    (!(c = '\n' || c = '\r' || c = '\t' || c = ' ')) = true := by
+  simp only [printable, Bool.and_eq_true, decide_eq_true_eq] at h
+  have e1 : ('\n' : Char).toNat = 10 := by decide
+  have e2 : ('\r' : Char).toNat = 13 := by decide
+  have e3 : ('\t' : Char).toNat = 9 := by decide
+  have h1 : c ≠ '\n' := by intro e; rw [e, e1] at h; omega
+  have h2 : c ≠ '\r' := by intro e; rw [e, e2] at h; omega
+  have h3 : c ≠ '\t' := by intro e; rw [e, e3] at h; omega
+  simp [h1, h2, h3, hs]
+
+theorem filter_unlines {p : Char → Bool} (hnl : p '\n' = false) : ∀ (ws : List Str),
+    (∀ w ∈ ws, ∀ c ∈ w, p c = true) → (unlines ws).filter p = ws.flatten
+  | [], _ => by simp [unlines]
+  | w :: ws, h => by
+    have ih := filter_unlines hnl ws (fun x hx => h x (List.mem_cons_of_mem _ hx))
+    have hw : w.filter p = w := List.filter_eq_self.mpr (h w List.mem_cons_self)
+    rw [unlines_cons, List.filter_append, hw, List.filter_cons]
+    simp [hnl, ih]
+
+theorem seqChar_ne_space {lc : List Char} {c : Char} (h : seqChar lc c = true) : c ≠ ' ' := by
+  simp only [seqChar, Bool.and_eq_true, bne_iff_ne, ne_eq] at h; exact h.1.1.2
+
+theorem convertBytes_unlines {lc : List Char} {ws : List Str} (h : ∀ w ∈ ws, wfSeq lc w = true)
+    (hl : noLower ws.flatten = true) : convertBytes (unlines ws) = ws.flatten := by
+  unfold convertBytes
+  rw [filter_unlines (by decide) ws (fun w hw c hc =>
+    printable_not_convDel (seqChar_printable ((wfSeq_chars (h w hw)).2 c hc))
+      (seqChar_ne_space ((wfSeq_chars (h w hw)).2 c hc)))]
+  exact upper_id hl
+
+theorem wfName_chars {n : Str} (h : wfName n = true) : n ≠ [] ∧ ∀ c ∈ n, printable c = true := by
+  simp only [wfName, Bool.and_eq_true, Bool.not_eq_true', List.all_eq_true] at h
+  exact ⟨by intro e; subst e; simp at h, h.1.1.2⟩
+
+theorem nl_not_printable : printable '\n' = false := by decide
+
+theorem bytesRecord_body {r : Str × List Str} (hn : wfName r.1 = true) (hw : wfLines ['>'] r.2 = true)
+    (hl : noLower r.2.flatten = true) : bytesRecord (recBody r) = some (r.1, r.2.flatten) := by
+  have hnl : '\n' ∉ r.1 := fun hm => by
+    have := (wfName_chars hn).2 _ hm
+    rw [nl_not_printable] at this; exact absurd this (by simp)
+  obtain ⟨h1, h2⟩ := takeWhile_nl hnl (unlines r.2)
+  have hne : (recBody r).isEmpty = false := by
+    unfold recBody; cases r.1 <;> simp
+  have hc : (recBody r).contains '\n' = true := by
+    unfold recBody; simp
+  unfold bytesRecord
+  simp only [hne, hc, Bool.false_eq_true, if_false, Bool.not_true]
+  unfold recBody
+  rw [h1, h2, (wfName_strip hn).2]
+  simp only [List.drop_one, List.tail_cons]
+  rw [convertBytes_unlines (wfLines_iff hw).2 hl]
+
+theorem gt_not_in_body {r : Str × List Str} (hn : '>' ∉ r.1) (hw : wfLines ['>'] r.2 = true) :
+    '>' ∉ recBody r := by
+  unfold recBody
+  intro hm
+  rcases List.mem_append.mp hm with h | h
+  · exact hn h
+  · rcases List.mem_cons.mp h with h | h
+    · exact absurd h (by decide)
+    · simp only [unlines, List.mem_flatMap, List.mem_append, List.mem_singleton] at h
+      obtain ⟨w, hw', hc | hc⟩ := h
+      · have := seqChar_not_label ((wfSeq_chars ((wfLines_iff hw).2 w hw')).2 _ hc)
+        simp at this
+      · exact absurd hc (by decide)
+
+theorem fastaBytes_recs (recs : List (Str × List Str)) (hwf : WfRecs ['>'] recs)
+    (hgt : ∀ r ∈ recs, '>' ∉ r.1) (hlow : ∀ r ∈ recs, noLower r.2.flatten = true) :
+    fastaBytes (unlines (recLines '>' recs)) = expected recs := by
+  rw [unlines_recLines]
+  cases recs with
+  | nil => simp [fastaBytes, splitOnC, bytesRecord, expected]
+  | cons r rs =>
+    have hb : ∀ x ∈ r :: rs, '>' ∉ recBody x := fun x hx => gt_not_in_body (hgt x hx) (hwf x hx).2
+    have := splitOnC_bodies '>' rs r hb
+    unfold recBody at this
+    unfold fastaBytes
+    simp only [List.flatMap_cons, List.cons_append, splitOnC, if_true]
+    rw [this]
+    have hnone : bytesRecord [] = none := by simp [bytesRecord]
+    simp only [List.filterMap_cons, hnone]
+    have hall : ∀ (xs : List (Str × List Str)), (∀ x ∈ xs, x ∈ r :: rs) →
+        (xs.map recBody).filterMap bytesRecord = expected xs := by
+      intro xs
+      induction xs with
+      | nil => intro _; simp [expected]
+      | cons x xs ih =>
+        intro hx
+        have hx1 := hx x List.mem_cons_self
+        have := bytesRecord_body (hwf x hx1).1 (hwf x hx1).2 (hlow x hx1)
+        simp only [List.map_cons, List.filterMap_cons, this, expected]
+        rw [ih (fun y hy => hx y (List.mem_cons_of_mem _ hy))]
+        simp [expected]
+    have h2 := hall (r :: rs) (fun x hx => hx)
+    simp only [List.map_cons, List.filterMap_cons] at h2
+    exact h2
 
 end CogentModel.SeqFormats
